@@ -452,8 +452,10 @@ def stale_expression_case(fmt, wd: Path):
     """A hand-written table whose expression row carries a stale value: after loading, the value is the expression's."""
     import pandas as pd
     from glotaran.io import load_parameters
-    df = pd.DataFrame({"label": ["a.x", "b.y", "c"], "value": [2.5, 99.0, 77.0], "expression": [None, "$a.x * 2", "$b.y + $a.x"],
-                       "vary": [True, False, False]})
+    # rows h1, h2, h3: an expression chain of depth three declared BACKWARDS (each refers to a later row)
+    df = pd.DataFrame({"label": ["h1", "h2", "h3", "a.x", "b.y", "c"], "value": [11.0, 12.0, 13.0, 2.5, 99.0, 77.0],
+                       "expression": ["$h2 + 1", "$h3 + 1", "$a.x * 2", None, "$a.x * 2", "$b.y + $a.x"],
+                       "vary": [False, False, False, True, False, False]})
     f = wd / f"stale.{fmt}"
     if fmt == "csv":
         df.to_csv(f, index=False, na_rep="None")
@@ -465,7 +467,7 @@ def stale_expression_case(fmt, wd: Path):
         warnings.simplefilter("ignore")
         p = load_parameters(f)
     got = {x.label: x.value for x in p.all()}
-    want = {"a.x": 2.5, "b.y": 5.0, "c": 7.5}
+    want = {"h1": 7.0, "h2": 6.0, "h3": 5.0, "a.x": 2.5, "b.y": 5.0, "c": 7.5}
     return got, want
 
 
